@@ -3,7 +3,7 @@ import random
 from fractions import Fraction
 
 from vf import import_desper
-from vf.core import Res
+from vf.core import Res, HarnessError
 
 ID = 'C20'
 LEVEL = 'exploration'
@@ -129,8 +129,13 @@ def gen_one(rng, tier):
         prop2 = rng.choice(PROPS)
         chains.append([li, t, prop,
                        _value(rng, transforms[t]['dim'], prop2), prop2])
+    raiser = None
+    if listeners and rng.random() < 0.2:
+        # one listener raises once, during one of the first assignments
+        raiser = [rng.randrange(len(listeners)),
+                  rng.randrange(max(1, len(ops) // 2))]
     return {'transforms': transforms, 'listeners': listeners, 'ops': ops,
-            'chains': chains,
+            'chains': chains, 'raiser': raiser,
             # value-like listeners: distinct listeners that compare and hash
             # equal ('unhashable': __eq__ without __hash__)
             # ('falsy', 'empty': listeners that evaluate false)
@@ -173,11 +178,18 @@ def run_case(case):
     res = Res()
     log = []
 
+    armed = [None, None]
+
     def make_listener(uid, events):
         ns = {}
         for prop in events:
             def cb(self, value, _prop=prop):
                 log.append((self.uid, _prop, value))
+                if armed[0] == self.uid:
+                    # (once) a listener fails; the program catches that
+                    armed[0] = None
+                    armed[1] = HarnessError('a listener raised')
+                    raise armed[1]
                 for chain in case.get('chains', []):
                     if len(chain) == 5:
                         li, target, cprop, raw, prop2 = chain
@@ -283,12 +295,35 @@ def run_case(case):
         del nested[:]
         del same[:]
         current[0] = t
-        if aug:
-            assigned = t.rotation + value
-            t.rotation += value
-        else:
-            assigned = value
-            setattr(t, prop, value)
+        raiser = case.get('raiser')
+        if raiser and raiser[1] == at:
+            armed[0] = raiser[0]
+        try:
+            if aug:
+                assigned = t.rotation + value
+                t.rotation += value
+            else:
+                assigned = value
+                setattr(t, prop, value)
+        except HarnessError as ex:
+            if ex is not armed[1]:
+                raise
+            # the notification round was cut short by the failing listener:
+            # only the stored value is judged for this assignment, the
+            # following ones are judged as usual
+            armed[1] = None
+            res.stats['assignments_interrupted_by_a_raising_listener'] += 1
+            clamped = same or any(len(c) == 5 and c[1] == ti
+                                  for c in case.get('chains', []))
+            if not (prop == 'rotation' and dim == 2) and not clamped \
+                    and not _eq(getattr(t, prop), assigned):
+                res.div(at, 'value-not-stored', f'{prop} after an assignment '
+                        'whose notification a listener interrupted',
+                        repr(assigned), repr(getattr(t, prop)))
+                break
+            continue
+        finally:
+            armed[0] = None
         back = getattr(t, prop)
         res.stats['assignments'] += 1
         res.tags['prop_dim'].add(f'{prop}/{dim}')
